@@ -368,207 +368,315 @@ theorem takeByAmount_mem : ∀ (as : List Nat) (ps : List WProof) (p : WProof),
       · exact Or.inr rfl
       · exact takeByAmount_mem as ps p h
 
-/-! ## operation paths (code as it is: inputs are sent as they are) -/
+/-! ## the mint's DLEQ transcript -/
+
+theorem outputs_leaf_noTranscript (k : String) (outs : List Output) {pl : Path × Leaf}
+    (h : pl ∈ leavesFields [(k, Tree.arr (outs.map renderOutput))]) : pl.2.isTranscript = false := by
+  simp only [mem_leavesFields, List.mem_singleton, exists_eq_left, leaves_arr, mem_leavesItems, List.mem_map] at h
+  obtain ⟨q, ⟨t, ⟨o, _, rfl⟩, q', hq', rfl⟩, rfl⟩ := h
+  exact Leaf.harmless_not_transcript (renderOutput_leaves o q' hq')
+
+theorem inputs_field_noTranscript {ins : List WProof} (h : NoDLEQs ins) {pl : Path × Leaf}
+    (hpl : pl ∈ leavesFields [("inputs", Tree.arr (ins.map (renderProof .input)))]) : pl.2.isTranscript = false := by
+  simp only [mem_leavesFields, List.mem_singleton, exists_eq_left, leaves_arr, mem_leavesItems, List.mem_map] at hpl
+  obtain ⟨q, ⟨t, ⟨p, hp, rfl⟩, q', hq', rfl⟩, rfl⟩ := hpl
+  rcases renderProof_leaves .input p q' hq' with h1 | rfl | ⟨d, hd, _⟩
+  · exact Leaf.harmless_not_transcript h1
+  · rfl
+  · rw [h p hp] at hd; cases hd
+
+/-- EXACT condition: a swap request shows no DLEQ transcript iff none of the proofs passed as `Inputs:` has a DLEQ -/
+theorem noTranscript_postSwapReq_iff (ins : List WProof) (outs : List Output) :
+    (postSwapReq ins outs).NoTranscript ↔ NoDLEQs ins := by
+  constructor
+  · intro h p hp
+    cases hd : p.dleq with
+    | none => rfl
+    | some d =>
+      exfalso
+      have hm := renderProof_has_e .input p d hd
+      have : (["inputs", "[]", "dleq", "e"], Leaf.dleqE d.e) ∈ (postSwapReq ins outs).body.leaves := by
+        simp only [postSwapReq, leaves_node]
+        refine mem_leavesFields.2 ⟨("inputs", _), List.mem_cons_self, (["[]", "dleq", "e"], _), ?_, rfl⟩
+        simp only [leaves_arr]
+        exact mem_leavesItems.2 ⟨_, List.mem_map.2 ⟨p, hp, rfl⟩, _, hm, rfl⟩
+      have := h _ this
+      simp [Leaf.isTranscript] at this
+  · intro h pl hpl
+    simp only [postSwapReq, leaves_node] at hpl
+    rw [show ([("inputs", Tree.arr (ins.map (renderProof .input))), ("outputs", Tree.arr (outs.map renderOutput))] :
+        List (String × Tree)) = [("inputs", Tree.arr (ins.map (renderProof .input)))] ++
+        [("outputs", Tree.arr (outs.map renderOutput))] from rfl] at hpl
+    simp only [leavesFields_append, List.mem_append] at hpl
+    rcases hpl with h1 | h1
+    · exact inputs_field_noTranscript h h1
+    · exact outputs_leaf_noTranscript _ _ h1
+
+theorem noTranscript_postMeltReq (q : String) (ins : List WProof) (outs : List Output) (h : NoDLEQs ins) :
+    (postMeltReq q ins outs).NoTranscript := by
+  intro pl hpl
+  simp only [postMeltReq, leaves_node] at hpl
+  rw [show ([("quote", Tree.leaf (Leaf.pub q)), ("inputs", Tree.arr (ins.map (renderProof .input)))] :
+      List (String × Tree)) = [("quote", Tree.leaf (Leaf.pub q))] ++
+      [("inputs", Tree.arr (ins.map (renderProof .input)))] from rfl] at hpl
+  simp only [leavesFields_append, List.mem_append] at hpl
+  rcases hpl with (h1 | h1) | h1
+  · simp [leavesFields] at h1; subst h1; rfl
+  · exact inputs_field_noTranscript h h1
+  · cases he : outs.isEmpty <;> simp only [he] at h1
+    · exact outputs_leaf_noTranscript _ _ h1
+    · simp [leavesFields] at h1
+
+/-- a request without inputs built from public text, numbers, points and blinded messages -/
+theorem noTranscript_of_harmless (r : Req) (h : ∀ pl ∈ r.body.leaves, pl.2.harmless = true) : r.NoTranscript :=
+  fun pl hpl => Leaf.harmless_not_transcript (h pl hpl)
+
+theorem harmless_getReq (w : String) : ∀ pl ∈ (getReq w).body.leaves, pl.2.harmless = true := by
+  intro pl hpl; simp [getReq, leavesFields] at hpl
+
+theorem harmless_postMintQuoteReq (a : Nat) : ∀ pl ∈ (postMintQuoteReq a).body.leaves, pl.2.harmless = true := by
+  intro pl hpl
+  simp [postMintQuoteReq, leavesFields] at hpl
+  rcases hpl with rfl | rfl | rfl <;> rfl
+
+theorem harmless_postMeltQuoteReq : ∀ pl ∈ postMeltQuoteReq.body.leaves, pl.2.harmless = true := by
+  intro pl hpl
+  simp [postMeltQuoteReq, leavesFields] at hpl
+  rcases hpl with rfl | rfl <;> rfl
+
+theorem harmless_outputs_field (k : String) (outs : List Output) {pl : Path × Leaf}
+    (h : pl ∈ leavesFields [(k, Tree.arr (outs.map renderOutput))]) : pl.2.harmless = true := by
+  simp only [mem_leavesFields, List.mem_singleton, exists_eq_left, leaves_arr, mem_leavesItems, List.mem_map] at h
+  obtain ⟨q, ⟨t, ⟨o, _, rfl⟩, q', hq', rfl⟩, rfl⟩ := h
+  exact renderOutput_leaves o q' hq'
+
+theorem harmless_postMintReq (q : String) (outs : List Output) (sg : Bool) :
+    ∀ pl ∈ (postMintReq q outs sg).body.leaves, pl.2.harmless = true := by
+  intro pl hpl
+  simp only [postMintReq, leaves_node] at hpl
+  rw [show ([("quote", Tree.leaf (Leaf.pub q)), ("outputs", Tree.arr (outs.map renderOutput))] : List (String × Tree)) =
+    [("quote", Tree.leaf (Leaf.pub q))] ++ [("outputs", Tree.arr (outs.map renderOutput))] from rfl] at hpl
+  simp only [leavesFields_append, List.mem_append] at hpl
+  rcases hpl with (h | h) | h
+  · simp [leavesFields] at h; subst h; rfl
+  · exact harmless_outputs_field _ _ h
+  · cases sg <;> simp [leavesFields] at h
+    subst h; rfl
+
+theorem harmless_postCheckStateReq (ss : List Nat) : ∀ pl ∈ (postCheckStateReq ss).body.leaves, pl.2.harmless = true := by
+  intro pl hpl
+  simp only [postCheckStateReq, leaves_node, mem_leavesFields, List.mem_singleton, exists_eq_left, leaves_arr,
+    mem_leavesItems, List.mem_map] at hpl
+  obtain ⟨q, ⟨t, ⟨s, _, rfl⟩, q', hq', rfl⟩, rfl⟩ := hpl
+  simp at hq'; subst hq'; rfl
+
+theorem harmless_postRestoreReq (outs : List Output) : ∀ pl ∈ (postRestoreReq outs).body.leaves, pl.2.harmless = true := by
+  intro pl hpl
+  simp only [postRestoreReq, leaves_node, mem_leavesFields, List.mem_singleton, exists_eq_left, leaves_arr,
+    mem_leavesItems, List.mem_map] at hpl
+  obtain ⟨q, ⟨t, ⟨o, _, rfl⟩, q', hq', rfl⟩, rfl⟩ := hpl
+  exact renderOutput_leaves _ q' hq'
+
+/-! ## unlinkable requests: secure and without transcript -/
+
+/-- what C08 asks of one request (`Secure`) plus the absence of the mint's own DLEQ transcript -/
+def Req.Unlinkable (r : Req) : Prop := r.Secure ∧ r.NoTranscript
+
+instance (r : Req) : Decidable r.Unlinkable := by unfold Req.Unlinkable; infer_instance
+
+def AllOk (rs : List Req) : Prop := ∀ r ∈ rs, r.Unlinkable
+
+@[simp] theorem AllOk_nil : AllOk [] := by intro r hr; cases hr
+@[simp] theorem AllOk_cons (r : Req) (rs : List Req) : AllOk (r :: rs) ↔ r.Unlinkable ∧ AllOk rs := by
+  simp [AllOk]
+@[simp] theorem AllOk_append (a b : List Req) : AllOk (a ++ b) ↔ AllOk a ∧ AllOk b := by
+  simp only [AllOk, List.mem_append]
+  exact ⟨fun h => ⟨fun r hr => h r (Or.inl hr), fun r hr => h r (Or.inr hr)⟩,
+         fun h r hr => hr.elim (h.1 r) (h.2 r)⟩
+
+theorem AllOk_flatten_replicate (n : Nat) (round : List Req) (h : AllOk round) :
+    AllOk (List.replicate n round).flatten := by
+  induction n with
+  | zero => simp
+  | succ n ih => simp [List.replicate_succ, h, ih]
+
+theorem ok_getReq (w : String) : (getReq w).Unlinkable := ⟨secure_getReq w, noTranscript_of_harmless _ (harmless_getReq w)⟩
+theorem ok_postMintQuoteReq (a : Nat) : (postMintQuoteReq a).Unlinkable :=
+  ⟨secure_postMintQuoteReq a, noTranscript_of_harmless _ (harmless_postMintQuoteReq a)⟩
+theorem ok_postMeltQuoteReq : postMeltQuoteReq.Unlinkable :=
+  ⟨secure_postMeltQuoteReq, noTranscript_of_harmless _ harmless_postMeltQuoteReq⟩
+theorem ok_postMintReq (q : String) (outs : List Output) (sg : Bool) : (postMintReq q outs sg).Unlinkable :=
+  ⟨secure_postMintReq q outs sg, noTranscript_of_harmless _ (harmless_postMintReq q outs sg)⟩
+theorem ok_postCheckStateReq (ss : List Nat) : (postCheckStateReq ss).Unlinkable :=
+  ⟨secure_postCheckStateReq ss, noTranscript_of_harmless _ (harmless_postCheckStateReq ss)⟩
+theorem ok_postRestoreReq (outs : List Output) : (postRestoreReq outs).Unlinkable :=
+  ⟨secure_postRestoreReq outs, noTranscript_of_harmless _ (harmless_postRestoreReq outs)⟩
+
+/-- the copies made by `inputsWithoutDLEQ` carry no DLEQ, whatever the wallet holds -/
+theorem NoDLEQs_inputsWithoutDLEQ (ps : List WProof) : NoDLEQs (inputsWithoutDLEQ ps) := by
+  intro p hp
+  simp only [inputsWithoutDLEQ, List.mem_map] at hp
+  obtain ⟨q, _, rfl⟩ := hp
+  rfl
+
+/-- ... and are otherwise the same proofs: same secrets, amounts, keyset ids, witnesses, in the same order -/
+theorem inputsWithoutDLEQ_same (ps : List WProof) :
+    (inputsWithoutDLEQ ps).map (fun p => (p.amount, p.id, p.secret, p.witness)) =
+      ps.map (fun p => (p.amount, p.id, p.secret, p.witness)) := by
+  simp [inputsWithoutDLEQ, List.map_map, Function.comp_def]
+
+theorem ok_swapReq_stripped (ins : List WProof) (outs : List Output) :
+    (postSwapReq (inputsWithoutDLEQ ins) outs).Unlinkable :=
+  ⟨(secure_postSwapReq_iff _ _).2 (NoDLEQs_inputsWithoutDLEQ ins).noRs,
+   (noTranscript_postSwapReq_iff _ _).2 (NoDLEQs_inputsWithoutDLEQ ins)⟩
+
+theorem ok_meltReq_stripped (q : String) (ins : List WProof) (outs : List Output) :
+    (postMeltReq q (inputsWithoutDLEQ ins) outs).Unlinkable :=
+  ⟨(secure_postMeltReq_iff _ _ _).2 (NoDLEQs_inputsWithoutDLEQ ins).noRs,
+   noTranscript_postMeltReq _ _ _ (NoDLEQs_inputsWithoutDLEQ ins)⟩
+
+/-! ## operation paths (fixed code: every request site strips the DLEQ) -/
 
 theorem swap_reqs (st : WState) (ins : List WProof) (outs : List Output) (ans : Option (List Sig)) :
-    (swap st ins outs ans).reqs = [postSwapReq ins outs] := by
+    (swap st ins outs ans).reqs = [postSwapReq (inputsWithoutDLEQ ins) outs] := by
   unfold swap; split <;> rfl
 
 theorem swapToSend_reqs (st : WState) (pts : List WProof) (send change : List Output) (ans : Option (List Sig)) :
-    (swapToSend st pts send change ans).reqs = [postSwapReq pts (sortOutputs (send ++ change))] := by
+    (swapToSend st pts send change ans).reqs = [postSwapReq (inputsWithoutDLEQ pts) (sortOutputs (send ++ change))] := by
   cases ans with
   | none => rfl
   | some sigs => simp only [swapToSend]; split <;> rfl
 
-/-- proofs handed out by swapToSend come from constructProofs (or are zero values) -/
-theorem swapToSend_ret_noDLEQ (st : WState) (pts : List WProof) (send change : List Output) (sigs : List Sig)
-    (hs : ∀ sg ∈ sigs, sg.dleq = none) (ps : List WProof)
-    (h : (swapToSend st pts send change (some sigs)).ret = some ps) : NoDLEQs ps := by
-  unfold swapToSend at h
-  simp only at h
-  split at h
-  · cases h
-  · rename_i pfs hpfs
-    simp only [Option.some.injEq] at h
-    subst h
-    intro p hp
-    rcases takeByAmount_mem _ _ p hp with h1 | rfl
-    · exact constructProofs_noDLEQ _ _ _ hpfs hs p h1
-    · rfl
-
-/-- the inputs of the selection carry no blinding factor -/
-def Sel.InputsClean : Sel → Prop
-  | .fail => True
-  | .exact _ => True
-  | .viaSwap pts _ _ _ => NoRs pts
-
-/-- ... and neither do the proofs it hands on to the next request of the same operation -/
-def Sel.Clean : Sel → Prop
-  | .fail => True
-  | .exact sel => NoRs sel
-  | .viaSwap pts _ _ ans => NoRs pts ∧ ∀ sigs, ans = some sigs → ∀ sg ∈ sigs, sg.dleq = none
-
-theorem Sel.Clean.inputs {sel : Sel} (h : sel.Clean) : sel.InputsClean := by
-  cases sel <;> simp_all [Sel.Clean, Sel.InputsClean]
-
-theorem getProofsForAmount_secure (st : WState) (sel : Sel) :
-    AllSecure (getProofsForAmount st sel).reqs ↔ sel.InputsClean := by
-  cases sel <;> simp [getProofsForAmount, Sel.InputsClean, swapToSend_reqs, secure_postSwapReq_iff]
-
-theorem getProofsForAmount_ret (st : WState) (sel : Sel) (h : sel.Clean) (ps : List WProof)
-    (hr : (getProofsForAmount st sel).ret = some ps) : NoRs ps := by
-  cases sel with
-  | fail => simp [getProofsForAmount] at hr
-  | exact sel => simp [getProofsForAmount] at hr; subst hr; exact h
-  | viaSwap pts send change ans =>
-    simp only [getProofsForAmount] at hr
-    cases ans with
-    | none => simp [swapToSend] at hr
-    | some sigs => exact (swapToSend_ret_noDLEQ st pts send change sigs (h.2 sigs rfl) ps hr).noRs
+theorem getProofsForAmount_ok (st : WState) (sel : Sel) : AllOk (getProofsForAmount st sel).reqs := by
+  cases sel <;> simp [getProofsForAmount, swapToSend_reqs, ok_swapReq_stripped]
 
 theorem send_reqs (st : WState) (sel : Sel) : (send st sel).reqs = (getProofsForAmount st sel).reqs := by
   unfold send; simp only; split <;> rfl
 
-theorem sendLocked_secure (st : WState) (ok : Bool) (pts : List WProof) (s c : List Output) (ans : Option (List Sig))
-    (h : NoRs pts) : AllSecure (sendLocked st ok pts s c ans).reqs := by
-  cases ok <;> simp [sendLocked, secure_getReq, swapToSend_reqs, secure_postSwapReq_iff, h]
+theorem sendLocked_ok (st : WState) (ok : Bool) (pts : List WProof) (s c : List Output) (ans : Option (List Sig)) :
+    AllOk (sendLocked st ok pts s c ans).reqs := by
+  cases ok <;> simp [sendLocked, ok_getReq, swapToSend_reqs, ok_swapReq_stripped]
 
-/-- MintTokens never sends anything but the quote id, blinded messages and the NUT-20 signature -/
-theorem mintTokens_secure (st : WState) (q : String) (qs : Option (Option Bool)) (sg : Bool) (outs : List Output)
-    (ans : Option (List Sig)) : AllSecure (mintTokens st q qs sg outs ans).reqs := by
+theorem mintTokens_ok (st : WState) (q : String) (qs : Option (Option Bool)) (sg : Bool) (outs : List Output)
+    (ans : Option (List Sig)) : AllOk (mintTokens st q qs sg outs ans).reqs := by
   unfold mintTokens
   repeat' split
-  all_goals simp [secure_getReq, secure_postMintReq]
+  all_goals simp [ok_getReq, ok_postMintReq]
 
-theorem swapProofs_secure (st : WState) (proofs : List WProof) (o : SwapProofsOracle) (h : NoRs proofs) :
-    AllSecure (swapProofs st proofs o).reqs := by
-  have hround : AllSecure [postMintQuoteReq 0, postMeltQuoteReq] := by
-    simp [secure_postMintQuoteReq, secure_postMeltQuoteReq]
-  have hrep := AllSecure_flatten_replicate o.retries _ hround
+theorem swapProofs_ok (st : WState) (proofs : List WProof) (o : SwapProofsOracle) :
+    AllOk (swapProofs st proofs o).reqs := by
+  have hround : AllOk [postMintQuoteReq 0, postMeltQuoteReq] := by
+    simp [ok_postMintQuoteReq, ok_postMeltQuoteReq]
+  have hrep := AllOk_flatten_replicate o.retries _ hround
   unfold swapProofs
   split
-  · simp [hrep, secure_postMintQuoteReq]
-  · simp [hrep, secure_postMintQuoteReq, secure_postMeltQuoteReq]
+  · simp [hrep, ok_postMintQuoteReq]
+  · simp [hrep, ok_postMintQuoteReq, ok_postMeltQuoteReq]
   · split
-    · simp [hrep, secure_postMintQuoteReq, secure_postMeltQuoteReq, secure_postMeltReq_iff, h, mintTokens_secure]
-    · simp [hrep, secure_postMintQuoteReq, secure_postMeltQuoteReq, secure_postMeltReq_iff, h]
+    · simp [hrep, ok_postMintQuoteReq, ok_postMeltQuoteReq, ok_meltReq_stripped, mintTokens_ok]
+    · simp [hrep, ok_postMintQuoteReq, ok_postMeltQuoteReq, ok_meltReq_stripped]
 
-/-- the melt request of swapProofs leaks exactly when a proof handed to it carries r -/
-theorem swapProofs_leaks (st : WState) (proofs : List WProof) (o : SwapProofsOracle) (hl : o.loopEnd = .ok)
-    (h : AllSecure (swapProofs st proofs o).reqs) : NoRs proofs := by
-  unfold swapProofs at h
-  simp only [hl] at h
-  split at h
-  · simp only [AllSecure_append, AllSecure_cons, secure_postMeltReq_iff] at h; exact h.1.2.1
-  · simp only [AllSecure_append, AllSecure_cons, secure_postMeltReq_iff] at h; exact h.2.1
-
-theorem swapAndSave_secure (st : WState) (ins : List WProof) (outs : List Output) (sa : Bool) (ans : Option (List Sig))
-    (h : NoRs ins) : AllSecure (swapAndSave st ins outs sa ans).reqs := by
+theorem swapAndSave_ok (st : WState) (ins : List WProof) (outs : List Output) (sa : Bool) (ans : Option (List Sig)) :
+    AllOk (swapAndSave st ins outs sa ans).reqs := by
   unfold swapAndSave
   simp only
-  split <;> simp [swap_reqs, secure_postSwapReq_iff, h]
+  split <;> simp [swap_reqs, ok_swapReq_stripped]
 
-/-- `Receive`: the token's proofs carry no r; on the SIG_ALL swap-to-trusted path the proofs the intermediate swap
-    returns are melted next, so that answer must carry no DLEQ either -/
-def ReceiveOracle.Clean (o : ReceiveOracle) : Prop :=
-  o.swapToTrusted = true → o.p2pk = true → o.sigAll = true → ∀ sigs, o.ans = some sigs → ∀ sg ∈ sigs, sg.dleq = none
-
-theorem receive_secure (st : WState) (token : List WProof) (o : ReceiveOracle) (ht : NoRs token) (ho : o.Clean) :
-    AllSecure (receive st token o).reqs := by
-  have hw : NoRs (if o.p2pk then addWitnessToInputs token else token) := by
-    split
-    · exact NoRs_addWitnessToInputs ht
-    · exact ht
+theorem receive_ok (st : WState) (token : List WProof) (o : ReceiveOracle) : AllOk (receive st token o).reqs := by
   unfold receive
   split
   · simp
   · simp only
     split
-    · rename_i htr
-      split
-      · rename_i hsa
-        simp only [Bool.and_eq_true] at hsa
-        cases hans : o.ans with
-        | none => simp [swap, secure_getReq, secure_postSwapReq_iff, hw]
-        | some sigs =>
-          simp only [swap]
-          cases hc : constructProofs sigs (addWitnessToOutputs o.outs) with
-          | none => simp [secure_getReq, secure_postSwapReq_iff, hw]
-          | some newProofs =>
-            have hn : NoRs newProofs :=
-              (constructProofs_noDLEQ _ _ _ hc (ho htr hsa.1 hsa.2 sigs hans)).noRs
-            simp [secure_getReq, secure_postSwapReq_iff, hw, swapProofs_secure _ _ _ hn]
-      · simp [secure_getReq, swapProofs_secure _ _ _ hw]
-    · exact swapAndSave_secure _ _ _ _ _ hw
+    · split
+      · split <;> simp [swap_reqs, ok_getReq, ok_swapReq_stripped, swapProofs_ok]
+      · simp [ok_getReq, swapProofs_ok]
+    · exact swapAndSave_ok _ _ _ _ _
 
-theorem receiveHTLC_secure (st : WState) (token : List WProof) (d h sa : Bool) (outs : List Output)
-    (ans : Option (List Sig)) (ht : NoRs token) : AllSecure (receiveHTLC st token d h sa outs ans).reqs := by
+theorem receiveHTLC_ok (st : WState) (token : List WProof) (d h sa : Bool) (outs : List Output)
+    (ans : Option (List Sig)) : AllOk (receiveHTLC st token d h sa outs ans).reqs := by
   unfold receiveHTLC
   split
   · simp
-  · exact swapAndSave_secure _ _ _ _ _ (NoRs_addWitnessToInputs ht)
+  · exact swapAndSave_ok _ _ _ _ _
 
-theorem melt_secure (st : WState) (q : String) (pc : Option Bool) (sel : Sel) (blanks : List Output) (ans : MeltAns)
-    (h : sel.Clean) : AllSecure (melt st q pc sel blanks ans).reqs := by
-  have hpre : AllSecure (meltPre pc) := by
-    cases pc <;> simp [meltPre, secure_getReq]
-  have hg := (getProofsForAmount_secure st sel).2 h.inputs
+theorem melt_ok (st : WState) (q : String) (pc : Option Bool) (sel : Sel) (blanks : List Output) (ans : MeltAns) :
+    AllOk (melt st q pc sel blanks ans).reqs := by
+  have hpre : AllOk (meltPre pc) := by
+    cases pc <;> simp [meltPre, ok_getReq]
+  have hg := getProofsForAmount_ok st sel
   unfold melt
   simp only
   split
   · exact hpre
   · split
     · simp [hpre, hg]
-    · rename_i proofs hp
-      have hn := getProofsForAmount_ret st sel h proofs hp
-      cases ans with
-      | err b => cases b <;> simp [hpre, hg, secure_postMeltReq_iff, hn]
-      | unpaid => simp [hpre, hg, secure_postMeltReq_iff, hn]
-      | pending => simp [hpre, hg, secure_postMeltReq_iff, hn]
-      | paid change => simp only; split <;> simp [hpre, hg, secure_postMeltReq_iff, hn]
+    · cases ans with
+      | err b => cases b <;> simp [hpre, hg, ok_meltReq_stripped]
+      | unpaid => simp [hpre, hg, ok_meltReq_stripped]
+      | pending => simp [hpre, hg, ok_meltReq_stripped]
+      | paid change => simp only; split <;> simp [hpre, hg, ok_meltReq_stripped]
 
-theorem mintSwap_secure (st : WState) (sel : Sel) (o : SwapProofsOracle) (h : sel.Clean) :
-    AllSecure (mintSwap st sel o).reqs := by
-  have hg := (getProofsForAmount_secure st sel).2 h.inputs
+theorem mintSwap_ok (st : WState) (sel : Sel) (o : SwapProofsOracle) : AllOk (mintSwap st sel o).reqs := by
+  have hg := getProofsForAmount_ok st sel
   unfold mintSwap
   simp only
   split
   · exact hg
-  · rename_i proofs hp
-    simp [hg, swapProofs_secure _ _ _ (getProofsForAmount_ret st sel h proofs hp)]
+  · simp [hg, swapProofs_ok]
 
-theorem removeSpentProofs_secure (st : WState) (ms : List PendingMint) : AllSecure (removeSpentProofs st ms).reqs := by
+theorem removeSpentProofs_ok (st : WState) (ms : List PendingMint) : AllOk (removeSpentProofs st ms).reqs := by
   induction ms with
   | nil => simp [removeSpentProofs]
   | cons m rest ih =>
     unfold removeSpentProofs
     simp only
-    split <;> simp [secure_postCheckStateReq, ih]
+    split <;> simp [ok_postCheckStateReq, ih]
 
-/-- ReclaimUnspentProofs rebuilds its inputs field by field WITHOUT the DLEQ: secure for every pending list -/
-theorem reclaimUnspentProofs_secure (st : WState) (ms : List PendingMint) :
-    AllSecure (reclaimUnspentProofs st ms).reqs := by
+theorem reclaimUnspentProofs_ok (st : WState) (ms : List PendingMint) :
+    AllOk (reclaimUnspentProofs st ms).reqs := by
   induction ms generalizing st with
   | nil => simp [reclaimUnspentProofs]
   | cons m rest ih =>
-    have hc : NoRs (m.unspent.map reclaimCopy) := (NoDLEQs_map_reclaimCopy _).noRs
     unfold reclaimUnspentProofs
     simp only
     split
-    · simp [secure_postCheckStateReq]
+    · simp [ok_postCheckStateReq]
     · split
-      · simp [secure_postCheckStateReq, ih]
+      · simp [ok_postCheckStateReq, ih]
       · split
-        · simp [secure_postCheckStateReq, swap_reqs, secure_postSwapReq_iff, hc]
-        · simp [secure_postCheckStateReq, swap_reqs, secure_postSwapReq_iff, hc, ih]
+        · simp [ok_postCheckStateReq, swap_reqs, ok_swapReq_stripped]
+        · simp [ok_postCheckStateReq, swap_reqs, ok_swapReq_stripped, ih]
 
-theorem restoreBatches_secure (bs : List RestoreBatch) : AllSecure (restoreBatches bs) := by
+theorem restoreBatches_ok (bs : List RestoreBatch) : AllOk (restoreBatches bs) := by
   induction bs with
   | nil => simp [restoreBatches]
   | cons b rest ih =>
     unfold restoreBatches
     simp only
-    split <;> simp [secure_postRestoreReq, secure_postCheckStateReq, ih]
+    split <;> simp [ok_postRestoreReq, ok_postCheckStateReq, ih]
+
+/-- every operation path, every state, every oracle -/
+theorem step_ok (st : WState) (op : Op) : AllOk (step st op).1 := by
+  cases op with
+  | requestMint a => simp [step, ok_postMintQuoteReq]
+  | requestMeltQuote => simp [step, ok_postMeltQuoteReq]
+  | checkMeltQuoteState => simp [step, ok_getReq]
+  | mintTokens q qs sg outs ans => exact mintTokens_ok st q qs sg outs ans
+  | send sel => simp only [step, send_reqs]; exact getProofsForAmount_ok st sel
+  | sendLocked ok pts s c ans => exact sendLocked_ok st ok pts s c ans
+  | receive tok o => exact receive_ok st tok o
+  | receiveHTLC tok d h sa outs ans => exact receiveHTLC_ok st tok d h sa outs ans
+  | melt q pc sel blanks ans => exact melt_ok st q pc sel blanks ans
+  | mintSwap sel o => exact mintSwap_ok st sel o
+  | reclaim ms => exact reclaimUnspentProofs_ok st ms
+  | removeSpent ms => exact removeSpentProofs_ok st ms
+  | restore bs => simp [step, ok_getReq, restoreBatches_ok]
+
+theorem runHist_ok (st : WState) (ops : List Op) : AllOk (runHist st ops) := by
+  induction ops generalizing st with
+  | nil => simp [runHist]
+  | cons op ops ih => simp [runHist, step_ok, ih]
 
 /-! ## tokens (values for the caller) -/
 
@@ -630,47 +738,5 @@ theorem newTokenV3_includes (ps : List WProof) (p : WProof) (hp : p ∈ ps) (d :
     (["[]", "dleq", "r"], _), ?_, rfl⟩
   simp only [leaves_arr]
   exact mem_leavesItems.2 ⟨_, List.mem_map.2 ⟨p, hp, rfl⟩, _, renderProof_has_r .caller p d r hd hr, rfl⟩
-
-/-! ## what the partial theorem speaks about -/
-
-/-- the stored proofs an operation's selection takes -/
-def Sel.inputs : Sel → List WProof
-  | .fail => []
-  | .exact sel => sel
-  | .viaSwap pts _ _ _ => pts
-
-def Op.walletInputs : Op → List WProof
-  | .send sel => sel.inputs
-  | .sendLocked _ pts _ _ _ => pts
-  | .melt _ _ sel _ _ => sel.inputs
-  | .mintSwap sel _ => sel.inputs
-  | _ => []
-
-/-- the proofs of the token an operation redeems -/
-def Op.token : Op → List WProof
-  | .receive tok _ => tok
-  | .receiveHTLC tok _ _ _ _ _ => tok
-  | _ => []
-
-/-- answers of the mint INSIDE an operation whose proofs are spent by a later request of the same operation:
-    the swap of a non-exact selection before a melt, and the first swap of a SIG_ALL swap-to-trusted -/
-def Op.midSigs : Op → List Sig
-  | .melt _ _ (.viaSwap _ _ _ (some sigs)) _ _ => sigs
-  | .mintSwap (.viaSwap _ _ _ (some sigs)) _ => sigs
-  | .receive _ o => if o.swapToTrusted && o.p2pk && o.sigAll then o.ans.getD [] else []
-  | _ => []
-
-/-- operation paths that never put a wallet proof into a request as it is -/
-def Op.safePath : Op → Bool
-  | .requestMint _ | .requestMeltQuote | .checkMeltQuoteState | .mintTokens .. | .reclaim _ | .removeSpent _
-  | .restore _ => true
-  | _ => false
-
-theorem sel_clean (sel : Sel) (h1 : NoRs sel.inputs)
-    (h2 : ∀ pts s c sigs, sel = .viaSwap pts s c (some sigs) → ∀ sg ∈ sigs, sg.dleq = none) : sel.Clean := by
-  cases sel with
-  | fail => trivial
-  | exact sel => exact h1
-  | viaSwap pts s c ans => exact ⟨h1, fun sigs hs => h2 pts s c sigs (by rw [hs])⟩
 
 end Gonuts.Model.WalletWire
